@@ -1,16 +1,64 @@
-"""C02 (DHCPv4 half; the DHCPv6 half is lib/fam_dhcp6.py, both run by the C02 check)."""
+"""C02: DHCPv4 (specs/Dhcp4/Dhcp4Impl) and DHCPv6 (Dhcp6Impl) halves, one check running both."""
+import time, os, json
+import tablecheck, vcheck
+
+COMMON_ASSUMPTIONS = [
+    "servers are driven through their real packet/message handlers (verif hooks VerifHandle / VerifHandleMessage) with real wire-format messages; time is testing/synctest virtual time",
+    "production configuration: DHCPv4 with a non-nil ebpf.Loader without loaded maps, no RADIUS/Nexus/peer-pool; DHCPv6 with the legacy address and prefix pools",
+    "client identity = hardware address (v4 direct), option-82 circuit-id (v4 relayed), DUID (v6)",
+    "an OFFER/Advertise is considered outstanding for one lease time; the availability (drain) probe exempts every value ever offered and not since bound/released and every address named in a DECLINE",
+    "v6: address and prefix of one client share one lease record, so a Reply for one kind extends the other (modelled as REFRESH)",
+]
+WATCH = ["InPoolUsable", "NotOthers", "LeaseUnique", "RenewSame", "NotDeclined", "ReleasedAvailable", "ReplyKind"]
 DHCP4 = dict(
     pkg="./dhcp4", test="TestExplore", spec_dir="Dhcp4", impl_module="Dhcp4Impl",
     design=[("Dhcp4Design", "MC_design_quick.cfg", 8, "quick"), ("Dhcp4Design", "MC_design.cfg", 16, "thorough")],
-    watch=["InPoolUsable", "NotOthers", "LeaseUnique", "RenewSame", "NotDeclined", "ReleasedAvailable", "ReplyKind"],
-    assumptions=[
-        "the server is driven through its real packet handler (verif hook VerifHandle) with real dhcpv4 packets and a capturing PacketConn; time is testing/synctest virtual time",
-        "production configuration: non-nil ebpf.Loader without loaded maps; no RADIUS/Nexus/peer-pool integration",
-        "client identity = hardware address (direct) or option-82 circuit-id (relayed)",
-        "an OFFER is considered outstanding for one lease time; availability (drain probe) exempts every address ever offered and not since bound/released, and every address named in a DECLINE",
-    ],
-    explanation="Dhcp4.tla contract model-checked (Dhcp4Design) to imply no-double-binding; Dhcp4Impl.tla walks tables extracted breadth-first from the real dhcp.Server "
+    watch=WATCH, assumptions=COMMON_ASSUMPTIONS,
+    explanation="Dhcp4.tla contract model-checked (Dhcp4Design) to imply no-double-binding; Dhcp4Impl/Dhcp6Impl walk tables extracted breadth-first from the real dhcp.Server / dhcpv6.Server "
                 "(messages x virtual-time advances x cleanup ticks) and long random traces, judging every reply and lease-table observation.",
 )
-CHECKS = {"C02": DHCP4}
-MANIFEST = {}
+DHCP6 = dict(DHCP4, pkg="./dhcp6", impl_module="Dhcp6Impl", design=[])
+
+
+def runner(prop, fam, tier, seed, replay):
+    """Runs the v4 half then the v6 half; evidence of both is merged."""
+    t0 = time.time()
+    evp = os.path.join(vcheck.VERIF, "evidence", prop + ".json")
+    rcs, evs = [], []
+    halves = [("v4", DHCP4), ("v6", DHCP6)]
+    if replay:
+        try:
+            sysname = json.load(open(replay))["cases"][0]["system"]
+        except Exception:
+            sysname = ""
+        halves = [h for h in halves if (h[0] == "v6") == sysname.startswith("dhcp6")]
+    for name, f in halves:
+        rc = tablecheck.table_check(prop, f, tier, seed, replay)
+        rcs.append(rc)
+        if os.path.exists(evp):
+            evs.append((name, json.load(open(evp))))
+    if len(evs) == 2:
+        a, b = evs[0][1], evs[1][1]
+        cov = dict(a["coverage"])
+        for k in ("states", "transitions", "traces_validated_against_impl", "evaluations", "distinct_nontrivial", "impl_tables", "impl_table_nodes",
+                  "impl_table_edges", "closed_tables", "impl_chains", "impl_chain_events", "tlc_impl_states", "tlc_impl_transitions", "violating_states",
+                  "violation_groups", "new_violations"):
+            cov[k] = a["coverage"].get(k, 0) + b["coverage"].get(k, 0)
+        cov["samples"] = a["coverage"]["samples"][:2] + b["coverage"]["samples"][:2]
+        cov["known_findings_hit"] = sorted(set(a["coverage"].get("known_findings_hit", [])) | set(b["coverage"].get("known_findings_hit", [])))
+        cov["halves"] = {"v4": {k: a["coverage"].get(k) for k in ("tlc_impl_states", "impl_table_edges", "impl_chain_events")},
+                         "v6": {k: b["coverage"].get(k) for k in ("tlc_impl_states", "impl_table_edges", "impl_chain_events")}}
+        vcheck.write_evidence(prop, tier, seed, "model_checking", cov, COMMON_ASSUMPTIONS, time.time() - t0, a.get("violations", 0) + b.get("violations", 0))
+    if 2 in rcs:
+        return 2
+    return 1 if 1 in rcs else 0
+
+
+CHECKS = {"C02": dict(DHCP4, runner=runner)}
+MANIFEST = {"C02": dict(
+    engine="tlc-table", category="model_checking", design_ref="DESIGN.md section 7 C02",
+    text="TLC model-checks the DHCP contract (Dhcp4Design) and then walks transition tables and random traces extracted from the real DHCPv4 and DHCPv6 servers "
+         "(all message sequences of 2-3 clients to a depth/node bound, incl. INIT-REBOOT requests for gateway/foreign/free addresses, DECLINE, RELEASE, relayed with option 82, "
+         "rapid commit, wrong server-id, virtual-time advances across lease expiry and cleanup ticks), judging every reply and lease-table observation; a drain probe at every state checks availability.",
+    technique="TLA+ protocol contract + TLC over tables/traces extracted from the real packet handlers under virtual time",
+    note="trusted: packet construction/decoding by the same libraries the servers use, harness unit projection, TLC; bounded by alphabet, depth and node caps (closed_tables in the evidence says when a fixed point was reached)")}
